@@ -43,8 +43,11 @@ def families(n):
     out.append(("bigtable", bytes(r.data)))
     # constant sample size, one huge chunk: lookups deep into the chunk must not iterate over the samples
     tb = {"stsc": [(1, 0xFFFFFFFF, 1)], "stsz": (1, 0xFFFFFFFF, []), "stts": [(0xFFFFFFFF, 1)], "ctts": None, "stss": None, "stco": [64]}
-    tr = {"id": 1, "kind": "avc", "ts": 1000, "tables": tb, "duration": 0}
-    out.append(("fixed_size_huge_chunk", isogen.render([isogen.ftyp(), isogen.Box("moov", [isogen.mvhd(), isogen.trak_of(tr)]), isogen.Box("mdat", [isogen.Raw(b"x" * min(n, 4096))])]).data))
+    for dur in (0, 90000):
+        # (a non-zero duration makes the accessors that derive rates from counts and sizes — bitrate, frame_rate — do their work)
+        for kind in ("avc", "ttxt"):
+            tr = {"id": 1, "kind": kind, "ts": 1000, "tables": tb, "duration": dur}
+            out.append(("fixed_size_huge_chunk_%s_%d" % (kind, dur), isogen.render([isogen.ftyp(), isogen.Box("moov", [isogen.mvhd(1000, dur), isogen.trak_of(tr)]), isogen.Box("mdat", [isogen.Raw(b"x" * min(n, 4096))])]).data))
     # 64-bit headers with sizes near the file length
     out.append(("large_hdr", isogen.render([isogen.ftyp()] + [B("free", [isogen.Raw(b"\0" * 8)], large=True)] * (k // 3)).data))
     # k sample entries whose esds descriptors claim to extend over z bytes of zero padding behind the moov box
@@ -65,6 +68,24 @@ def families(n):
     def bx(t, p):
         return struct.pack(">I4s", 8 + len(p), t) + p
     out.append(("esds_overrun", bx(b"moov", bx(b"trak", bx(b"mdia", bx(b"minf", bx(b"stbl", body))))) + b"\0" * z))
+    # sample entries whose child area is a run of child headers with sizes alternating between "up to the end of the entry" and a
+    # minimal box: a decoder that descends into a child and later resumes behind a SMALLER sibling re-parses the same bytes
+    # (work doubling per level).  For each entry kind x child type the decoder knows or skips.
+    def entry_with_children(entry, fixed, child_types, count):
+        kids = b""
+        total = 8 + len(fixed) + 8 * count
+        for i in range(count):
+            here = 8 + len(fixed) + 8 * i
+            sz = (total - here) if i % 2 == 0 else 16
+            kids += struct.pack(">I4s", max(8, min(sz, total - here)), child_types[i % len(child_types)])
+        return struct.pack(">I4s", total, entry) + fixed + kids
+    m = max(8, min(90, n // 40))
+    for entry, fixed, kinds in ((b"mp4a", b"\0" * 6 + b"\0\1" + b"\0" * 8 + b"\0\2\0\x10" + b"\0" * 4 + b"\xbb\x80\0\0", (b"wave", b"free", b"esds", b"chan")),
+                                (b"avc1", b"\0" * 6 + b"\0\1" + b"\0" * 16 + b"\1\x40\0\xf0" + b"\0\x48\0\0\0\x48\0\0" + b"\0" * 4 + b"\0\1" + b"\0" * 32 + b"\0\x18\xff\xff", (b"pasp", b"avcC", b"colr", b"btrt"))):
+        for ct in ((kinds[0],), kinds):
+            ent = entry_with_children(entry, fixed, ct, m)
+            stsd_b = struct.pack(">I4sII", 16 + len(ent), b"stsd", 0, 1) + ent
+            out.append(("entry_children_%s_%d" % (entry.decode(), len(ct)), bytes(isogen.render([isogen.ftyp()]).data) + bx(b"moov", bx(b"trak", bx(b"mdia", bx(b"minf", bx(b"stbl", stsd_b)))))))
     return [(name, bytes(d)) for name, d in out]
 
 
